@@ -61,7 +61,11 @@ func gen(t *rapid.T) Case {
 		case k <= 11:
 			c.Ops = append(c.Ops, Op{K: "call", A: a, Form: rapid.SampledFrom([]string{"call", "go", "ctx", "ping"}).Draw(t, "form")})
 		case k <= 16:
-			c.Ops = append(c.Ops, Op{K: "sleep", Ticks: rapid.SampledFrom([]int{1, 2, 3, 5, 12, 30}).Draw(t, "ticks")})
+			tk := rapid.SampledFrom([]int{1, 2, 3, 5, 12, 30, -1}).Draw(t, "ticks")
+			if tk < 0 {
+				tk = c.Cfg.KeepAlive + c.Cfg.IdleTO + 7 // long enough for unused connections to be closed
+			}
+			c.Ops = append(c.Ops, Op{K: "sleep", Ticks: tk})
 		default:
 			c.Ops = append(c.Ops, Op{K: "closeidle"})
 		}
@@ -112,7 +116,7 @@ func run(c Case) kit.Outcome {
 	fail := func(o kit.Outcome) kit.Outcome { o.History = hist; return o }
 	var longs []longCall
 	var streams []*openStream
-	busyTicks, closeIdles := 0, 0
+	busyTicks, closeIdles, reclaimChecks := 0, 0, 0
 
 	echo := func(s *openStream) *kit.Outcome {
 		s.n++
@@ -230,11 +234,39 @@ func run(c Case) kit.Outcome {
 				}
 			}
 		case "sleep":
+			before := time.Now()
 			time.Sleep(time.Duration(op.Ticks) * tick)
 			if len(longs)+len(streams) > 0 {
 				busyTicks += op.Ticks
 			}
 			h("sleep %d ticks (busy: %d long calls, %d streams)", op.Ticks, len(longs), len(streams))
+			// connections that stayed unused for the whole pause are reclaimed even while sibling
+			// connections to the same address are busy: at most the busy ones may still be open
+			if op.Ticks >= c.Cfg.KeepAlive+c.Cfg.IdleTO+6 {
+				for ai, a := range w.Addrs {
+					busy := 0
+					for _, lc := range longs {
+						if lc.a == ai {
+							busy++
+						}
+					}
+					for _, s := range streams {
+						if s.a == ai {
+							busy++
+						}
+					}
+					deadline := time.Now().Add(300 * time.Millisecond)
+					for w.Net.OpenClient(a) > busy {
+						if time.Now().After(deadline) {
+							o := kit.Fail("unused-not-reclaimed", "%d client connections to %s are open after %v without any new call although only %d of them carry a running call or an open stream (KeepAlive %d, IdleConnTimeout %d ticks): an unused connection was not retired/closed while a sibling is busy", w.Net.OpenClient(a), a, time.Since(before), busy, c.Cfg.KeepAlive, c.Cfg.IdleTO)
+							o.Timing = true
+							return fail(o)
+						}
+						time.Sleep(time.Millisecond)
+					}
+				}
+				reclaimChecks++
+			}
 		case "closeidle":
 			w.Tr.CloseIdleConnections()
 			if len(longs)+len(streams) > 0 {
@@ -341,6 +373,9 @@ func run(c Case) kit.Outcome {
 	}
 	if busyTicks > c.Cfg.KeepAlive {
 		out.Classes = append(out.Classes, "busy-longer-than-keepalive")
+	}
+	if reclaimChecks > 0 {
+		out.Classes = append(out.Classes, "reclaim-checked-while-busy")
 	}
 	if idleAtClose && pooledBeforeClose >= 2 {
 		out.Classes = append(out.Classes, "close-with-several-idle-connections")
